@@ -73,7 +73,7 @@ class World:
         self.contents = {init_id: {}}
         self.max_id = init_id
         with self.z.writer(True) as txn:
-            txn.add(dns.name.empty, 10, dns.rdata.from_text("IN", "SOA", "m. r. 1 2 3 4 5"))
+            txn.add(dns.name.empty, 10, dns.rdata.from_text("IN", "SOA", "m. r. 0 2 3 4 5"))
             txn.add(NA, 10, A1)
             txn.add(NB, 10, A2)
         self._committed()
